@@ -81,11 +81,45 @@ func runC20(c *Ctx) {
 					// rep.index (value field or field address load)
 					if fld, ok := idx.(*ssa.Field); ok && fieldName2(fld) == "index" {
 						how = "rep.index"
+						// `rep := reps[i]` hoisted inside the loop over the batch result: still the positional form
+						if ld, ok := fld.X.(*ssa.UnOp); ok {
+							if ia2, ok := ld.X.(*ssa.IndexAddr); ok {
+								for _, d2 := range an.Defs(ia2.Index) {
+									if bo, ok := d2.(*ssa.BinOp); ok {
+										if p, ok := bo.X.(*ssa.Phi); ok && p.Comment == "rangeindex" {
+											how = "reps[i].index (positional zip with the batch result)"
+										}
+									}
+									if p, ok := d2.(*ssa.Phi); ok && (p.Comment == "rangeindex" || an.CanReach(p, p)) {
+										how = "reps[i].index (positional zip with the batch result)"
+									}
+								}
+							}
+						}
 					}
 					if fa, ok := loadAddr(idx).(*ssa.FieldAddr); ok && fieldNameOf(fa) == "index" && idx != ia.Index {
 						how = "rep.index"
 					} else if fa, ok := loadAddr(ia.Index).(*ssa.FieldAddr); ok && fieldNameOf(fa) == "index" {
 						how = "rep.index"
+						// `rep := reps[i]` kept in a local cell inside the loop over the batch result
+						if cell, ok := fa.X.(*ssa.Alloc); ok {
+							if sts := an.CellStores(cell); len(sts) == 1 {
+								if ld, ok := sts[0].Val.(*ssa.UnOp); ok {
+									if ia3, ok := ld.X.(*ssa.IndexAddr); ok {
+										for _, d3 := range an.Defs(ia3.Index) {
+											if bo, ok := d3.(*ssa.BinOp); ok {
+												if p, ok := bo.X.(*ssa.Phi); ok && p.Comment == "rangeindex" {
+													how = "reps[i].index (positional zip with the batch result)"
+												}
+											}
+											if p, ok := d3.(*ssa.Phi); ok && p.Comment == "rangeindex" {
+												how = "reps[i].index (positional zip with the batch result)"
+											}
+										}
+									}
+								}
+							}
+						}
 						if ia2, ok := fa.X.(*ssa.IndexAddr); ok {
 							// reps[i].index with i the range index over the resolver result
 							if phi, ok := ia2.Index.(*ssa.BinOp); ok {
